@@ -15,7 +15,8 @@ Import ListNotations.
 
 Inductive pmo := OPmIdle | OPmHandle | OPmAnswer | OPmWait | OPmBusy | OPmGone.
 Inductive pao := OPaIdle | OPaAnswer | OPaPmCall | OPaTRemove | OPaTHeld | OPaTNotReady | OPaBusy.
-(* result classes: 1 = error of the path manager, 2 = "terminated", 3 = answered by the path, 4 = reload delivered *)
+(* result classes: 1 = error of the path manager, 2 = "terminated", 3 = answered by the path, 4 = reload delivered;
+   observed only: 0 = returned, the call has no result (path.RemovePublisher / RemoveReader) *)
 Inductive cao := OCStart | OCWaitPm | OCAtPa | OCWaitPa | OCRet (code : Z) | OCNone.
 Inductive clo := OClIdle | OClWait | OClDone.
 
@@ -88,7 +89,7 @@ Definition pmo_eqb (a b : pmo) : bool :=
 Definition cao_eqb (a b : cao) : bool :=
   match a, b with
   | OCStart, OCStart | OCWaitPm, OCWaitPm | OCAtPa, OCAtPa | OCWaitPa, OCWaitPa | OCNone, OCNone => true
-  | OCRet x, OCRet y => Z.eqb x y
+  | OCRet x, OCRet y => Z.eqb x y || Z.eqb y 0   (* observed 0 = a call without result (RemovePublisher...) *)
   | _, _ => false
   end.
 Definition clo_eqb (a b : clo) : bool :=
